@@ -8,12 +8,14 @@ package c02
 import (
 	"bufio"
 	"bytes"
+	"compress/gzip"
 	"encoding/json"
 	"encoding/xml"
 	"fmt"
 	"io"
 	"os"
 	"os/exec"
+	"path/filepath"
 	"strconv"
 	"strings"
 	"sync"
@@ -158,6 +160,98 @@ func nestDoc(depth int) []byte {
 	return b.Bytes()
 }
 
+var fileFormats = map[string]int{"newick": utils.FORMAT_NEWICK, "multi": utils.FORMAT_NEWICK, "nexus": utils.FORMAT_NEXUS, "nexusm": utils.FORMAT_NEXUS,
+	"phyloxml": utils.FORMAT_PHYLOXML, "phyloxmlm": utils.FORMAT_PHYLOXML, "nextstrain": utils.FORMAT_NEXTSTRAIN, "nextstrainm": utils.FORMAT_NEXTSTRAIN}
+
+// fileCase writes the input to a file the way `mode` says and reads it back through utils.ReadTree (single
+// formats) or utils.GetReader + utils.ReadMultiTrees (multi formats).  The reply carries, besides the
+// outcome and the records, the bytes the reader effectively had (what gzip yields before its first error).
+func fileCase(mode, format string, in []byte) string {
+	dir, err := os.MkdirTemp("", "c02file")
+	if err != nil {
+		return "bad"
+	}
+	defer os.RemoveAll(dir)
+	path := filepath.Join(dir, "in.txt")
+	content := in
+	effective := in
+	switch mode {
+	case "plain":
+	case "missing":
+		path = filepath.Join(dir, "does-not-exist.nw")
+		effective = nil
+	case "gz", "gztrunc", "gzflip", "notgz":
+		path = filepath.Join(dir, "in.txt.gz")
+		var zb bytes.Buffer
+		zw := gzip.NewWriter(&zb)
+		zw.Write(in)
+		zw.Close()
+		content = zb.Bytes()
+		switch mode {
+		case "gztrunc":
+			content = content[:len(content)*2/3]
+		case "gzflip":
+			if len(content) > 14 {
+				content = append([]byte{}, content...)
+				content[len(content)/2+3] ^= 0x5a
+			}
+		case "notgz":
+			content = in
+		}
+		// what a gzip reader delivers before its first error
+		effective = nil
+		if zr, err := gzip.NewReader(bytes.NewReader(content)); err == nil {
+			effective, _ = io.ReadAll(zr)
+		} else {
+			mode = "gzheader" // GetReader itself fails
+		}
+	}
+	if mode != "missing" {
+		if err := os.WriteFile(path, content, 0644); err != nil {
+			return "bad"
+		}
+	}
+	fm := fileFormats[format]
+	var recs []rec
+	var rerr error
+	if strings.HasSuffix(format, "m") || format == "multi" {
+		fh, rd, err := utils.GetReader(path)
+		if err != nil {
+			rerr = err
+		} else {
+			for tr := range utils.ReadMultiTrees(rd, fm) {
+				recs = append(recs, rec{tr.Id, tr.Tree, tr.Err})
+			}
+			fh.Close()
+		}
+	} else {
+		t, err := utils.ReadTree(path, fm)
+		if err != nil {
+			rerr = err
+		} else {
+			recs = append(recs, rec{0, t, nil})
+		}
+	}
+	out := "ok"
+	if rerr != nil {
+		out = "err"
+	}
+	var sb strings.Builder
+	for _, r := range recs {
+		if r.err != nil {
+			fmt.Fprintf(&sb, "%d:err::|", r.id)
+			continue
+		}
+		class, dump := useTree(r.tree)
+		fmt.Fprintf(&sb, "%d:tree:%s:%s|", r.id, class, dump)
+	}
+	openOK := "open"
+	if mode == "missing" || mode == "gzheader" {
+		openOK = "noopen"
+	}
+	return out + "\t" + sb.String() + "\t" + decoded(format, effective) + "\t" + openOK + "\t" + core.Escape(string(effective))
+}
+
 // nestDocX: the same nesting in the other formats
 func nestDocX(format string, depth int) []byte {
 	var b bytes.Buffer
@@ -197,58 +291,68 @@ func nestDocX(format string, depth int) []byte {
 // decoded gives what encoding/xml / encoding/json make of the input (the models of the clade
 // conversions start from there): "" for the text formats, "E" when the decoder fails.
 func decoded(format string, b []byte) string {
-	optRat := func(p *float64) string {
-		if p == nil {
-			return "-"
-		}
-		return core.Rat(*p)
-	}
 	switch format {
 	case "phyloxml", "phyloxmlm":
 		px := &phyloxml.PhyloXML{}
 		if err := xml.Unmarshal(b, px); err != nil {
 			return "E"
 		}
-		var sb strings.Builder
-		sb.WriteString("X")
-		var rec func(c *phyloxml.Clade)
-		rec = func(c *phyloxml.Clade) {
-			fmt.Fprintf(&sb, "( n%s s%s c%s l%s f%s ", core.Escape(c.Name), core.Escape(c.Tax.ScientificName), core.Escape(c.Tax.Code), optRat(c.BranchLength), optRat(c.Confidence))
-			for i := range c.Clades {
-				rec(&c.Clades[i])
-			}
-			sb.WriteString(") ")
-		}
-		for i := range px.Phylogenies {
-			rec(&px.Phylogenies[i].Root)
-			sb.WriteString("|")
-		}
-		return sb.String()
+		return encPx(px)
 	case "nextstrain", "nextstrainm":
 		ns := &nextstrain.Nextstrain{}
 		if err := json.Unmarshal(b, ns); err != nil {
 			return "E"
 		}
-		var sb strings.Builder
-		sb.WriteString("V" + core.Escape(ns.Version) + " ")
-		var rec func(c *nextstrain.NsNode)
-		rec = func(c *nextstrain.NsNode) {
-			cm := nsComment(c)
-			if cm == "" {
-				cm = "-"
-			} else {
-				cm = "k" + core.Escape(cm)
-			}
-			fmt.Fprintf(&sb, "( n%s d%s %s ", core.Escape(c.Name), core.Rat(c.Attributes.Divergence), cm)
-			for i := range c.Children {
-				rec(&c.Children[i])
-			}
-			sb.WriteString(") ")
-		}
-		rec(&ns.Tree)
-		return sb.String()
+		return encNs(ns)
 	}
 	return ""
+}
+
+// encPx serialises a decoded PhyloXML document for the driver.
+func encPx(px *phyloxml.PhyloXML) string {
+	optRat := func(p *float64) string {
+		if p == nil {
+			return "-"
+		}
+		return core.Rat(*p)
+	}
+	var sb strings.Builder
+	sb.WriteString("X")
+	var rec func(c *phyloxml.Clade)
+	rec = func(c *phyloxml.Clade) {
+		fmt.Fprintf(&sb, "( n%s s%s c%s l%s f%s ", core.Escape(c.Name), core.Escape(c.Tax.ScientificName), core.Escape(c.Tax.Code), optRat(c.BranchLength), optRat(c.Confidence))
+		for i := range c.Clades {
+			rec(&c.Clades[i])
+		}
+		sb.WriteString(") ")
+	}
+	for i := range px.Phylogenies {
+		rec(&px.Phylogenies[i].Root)
+		sb.WriteString("|")
+	}
+	return sb.String()
+}
+
+// encNs serialises a decoded Nextstrain document for the driver.
+func encNs(ns *nextstrain.Nextstrain) string {
+	var sb strings.Builder
+	sb.WriteString("V" + core.Escape(ns.Version) + " ")
+	var rec func(c *nextstrain.NsNode)
+	rec = func(c *nextstrain.NsNode) {
+		cm := nsComment(c)
+		if cm == "" {
+			cm = "-"
+		} else {
+			cm = "k" + core.Escape(cm)
+		}
+		fmt.Fprintf(&sb, "( n%s d%s %s ", core.Escape(c.Name), core.Rat(c.Attributes.Divergence), cm)
+		for i := range c.Children {
+			rec(&c.Children[i])
+		}
+		sb.WriteString(") ")
+	}
+	rec(&ns.Tree)
+	return sb.String()
 }
 
 // nsComment rebuilds the annotation comment of nextstrain.cladeToTree (string surgery only).
@@ -305,6 +409,16 @@ func handle(line string) string {
 			fmt.Fprintf(&sb, "%d:tree:%s:%s|", r.id, class, dump)
 		}
 		return out + "\t" + sb.String() + "\t" + decoded(f[1], []byte(in))
+	case "file":
+		// file-level entry points: utils.ReadTree / GetReader + ReadMultiTrees on a real file
+		if len(f) != 4 {
+			return "bad"
+		}
+		in, err := core.Unescape(f[3])
+		if err != nil {
+			return "bad"
+		}
+		return fileCase(f[1], f[2], []byte(in))
 	case "nest", "nestx":
 		depth, _ := strconv.Atoi(f[1])
 		format := "newick"
